@@ -241,16 +241,16 @@ for _k, _c in EXTRA9.items():
     CLAIMS[_k] = (c0 + _c, n0, t0)
 
 EXTRA10 = {
- "C17": "; the zero-height export rebases EnableHeight",
+ "C19": "; the zero-height export removes hand-jailed validators from the power index; collecting callbacks on export paths list every element",
+ "C18": "; wire integers are nil-tested before use in the stateless validation; the indexer recomputes the hash; the admission check's intrinsic gas takes the transaction's own access list",
+ "C17": "; the zero-height export rebases EnableHeight; every ante route records declared gas",
  "C04": "; RunSetup refuses transaction methods whose origin is the erc20 module account",
  "C07": "; the precompiles' recovering handler and the hook dispatcher do not let a panic escape",
- "C13": "; the reward coefficient is range-checked where it is accepted",
- "C10": "; automatic conversions are reachable only for 20-byte holder addresses",
+ "C13": "; the reward coefficient is range-checked where it is accepted; the parameters are read from the subspace only",
+ "C10": "; automatic conversions are reachable only for 20-byte holder addresses; logs are journalled one by one (C05 R4)",
  "C03": "; the EIP-712 sign-doc decoders and the Web3Tx verifier are checked for covering the bytes the decoding drops (three recorded findings)",
  "C06": "; the receivers of the message router are tabled and, while a dispatcher off the ante route is wired, neither MsgExec nor MsgGrant is grantable, and a nested MsgGrant is looked up as a message; both Cosmos routes bar the same types unconditionally",
  "C12": "; InitGenesis creates the module account and compares its coins with the imported shares",
- "C18": "; wire integers are nil-tested before use in the stateless validation; the indexer recomputes the hash",
- "C19": "; the zero-height export removes hand-jailed validators from the power index",
  "C20": "; the capability memory store is rebuilt after the state is loaded; the indexer service resumes inside the block store",
 }
 for _k, _c in EXTRA10.items():
